@@ -100,7 +100,9 @@ type result struct {
 	ghosts      int    // observation: reverted nested frames whose balance records survived
 	ghostOpener string
 	steps       uint64
+	rqSteps     uint64
 	exceeded    bool
+	rqExceeded  bool
 	frames      int
 	maxDepth    int
 	reverts     int
@@ -173,7 +175,7 @@ func run(w *world, ref *state.StateDB, preRoot common.Hash, code []byte, c confi
 	var p *probe
 	var tr evm.Tracer
 	if instrumented {
-		p = newProbe(st, ref, stepBudget(c.gas))
+		p = newProbe(st, ref, stepBudget(c.gas), rateQueryBudget(c.gas))
 		sdb, tr = p, p
 	}
 	var vm *evm.EVM
@@ -232,7 +234,8 @@ func run(w *world, ref *state.StateDB, preRoot common.Hash, code []byte, c confi
 				r.faultOp = fmt.Sprintf("0x%02x", byte(p.curOp))
 			}
 		}
-		if p.exceeded {
+		r.rqSteps, r.rqExceeded = p.rqSteps, p.rqExceeded
+		if p.exceeded || p.rqExceeded {
 			r.canceled = true
 		}
 	}
@@ -274,6 +277,16 @@ func stepBudget(gas uint64) uint64 {
 		return stepCap
 	}
 	return gas + gas/256 + 2000
+}
+
+// rateQueryBudget bounds the interpreter steps spent inside UTXO change-rate queries. A query is triggered by
+// ISSUE (25000 gas); an honest decimals() getter takes a few dozen steps. "No more steps than gas supplied"
+// is a generous allowance that a query running on its own, unpaid gas exceeds by orders of magnitude.
+func rateQueryBudget(gas uint64) uint64 {
+	if gas > stepCap {
+		return stepCap
+	}
+	return gas + 2000
 }
 
 func catch(f func()) (bool, string) {
@@ -373,6 +386,10 @@ func evaluate(w *world, ref *state.StateDB, preRoot common.Hash, code []byte, c 
 		}
 		add("panic:"+panicClass(a.panicVal)+":"+at, "interpreter panicked while executing %s: %s", at, a.panicVal)
 		return fs, "panic", a, 1
+	}
+	if a.rqExceeded {
+		add("unmetered-execution:utxo-rate-query-on-unpaid-gas", "the UTXO change-rate query that follows ISSUE executed more than %d interpreter steps (gas + 2000) although only gas=%d was supplied: it runs on 1e10 gas nobody pays for", rateQueryBudget(c.gas), c.gas)
+		return fs, "unmetered", a, 1
 	}
 	if a.exceeded {
 		if c.gas > stepCap {
